@@ -33,7 +33,7 @@ VERIF = os.path.dirname(os.path.dirname(os.path.abspath(__file__)))
 REPO = os.environ.get("VERIF_REPO", "/repo")
 COQ = os.environ.get("VERIF_BUILD", os.path.join(VERIF, "coq"))
 WORKROOT = os.environ.get("VERIF_WORK", os.path.join(VERIF, ".work"))
-NJOBS = int(os.environ.get("VERIF_JOBS", "16"))
+NJOBS = int(os.environ.get("VERIF_JOBS", "8"))
 EVIDENCE = os.environ.get("VERIF_EVIDENCE", os.path.join(VERIF, "evidence"))
 LOGICAL = "PV"
 
@@ -133,25 +133,83 @@ def refresh_makefile():
         )
 
 
+COQ_WARN = "-notation-overridden,-deprecated-hint-without-locality,-deprecated-instance-without-locality,-ambiguous-paths,-deprecated-syntactic-definition"
+
+
+def coq_deps(rel):
+    """Project-internal dependencies (relative .v paths) of coq/<rel>, read from its Require lines."""
+    with open(os.path.join(COQ, rel)) as f:
+        src = f.read()
+    prev = None
+    while prev != src:
+        prev = src
+        src = re.sub(r"\(\*(?:(?!\(\*|\*\)).)*\*\)", " ", src, flags=re.S)
+    out = []
+    for m in re.finditer(r"\b(?:From\s+(\w+)\s+)?Require\s+(?:Import\s+|Export\s+)?((?:[\w\.]+\s*)+)\.(?=\s|$)", src):
+        frm, mods = m.group(1), m.group(2).split()
+        for mod in mods:
+            parts = mod.split(".")
+            if parts[0] == LOGICAL:
+                parts = parts[1:]
+            elif frm != LOGICAL:
+                continue
+            if len(parts) == 2 and parts[0] in ("Lib", "Gen", "Model", "Proofs", "Props"):
+                r = "%s/%s.v" % (parts[0], parts[1])
+                if os.path.exists(os.path.join(COQ, r)) and r not in out:
+                    out.append(r)
+    return out
+
+
+def coq_closure(rel, acc=None):
+    acc = [] if acc is None else acc
+    for d in coq_deps(rel):
+        if d not in acc:
+            coq_closure(d, acc)
+    if rel not in acc:
+        acc.append(rel)
+    return acc
+
+
 def coq_make(targets, timeout=1500):
-    """make the .vo targets (paths relative to coq/). Returns (ok, log)."""
-    with BuildLock():
-        refresh_makefile()
-        p = subprocess.run(
-            ["timeout", str(timeout), "make", "-j%d" % NJOBS] + list(targets),
-            cwd=COQ,
-            stdout=subprocess.PIPE,
-            stderr=subprocess.STDOUT,
-            text=True,
-        )
-    return p.returncode == 0, p.stdout
+    """Compile the given targets ('Props/C12.vo' ...) and everything they depend on, in
+    dependency order, each file under its own lock (several checks may build at once).
+    A file is recompiled when its .vo is missing or older than the .v or than a dependency's
+    .vo.  Always a full .vo compile (never -vos/-vok).  Returns (ok, log)."""
+    log = []
+    os.makedirs(os.path.join(WORKROOT, "locks"), exist_ok=True)
+    order = []
+    for t in targets:
+        for r in coq_closure(t[:-1] if t.endswith(".vo") else t):
+            if r not in order:
+                order.append(r)
+    for rel in order:
+        v = os.path.join(COQ, rel)
+        vo = v + "o"
+        with open(os.path.join(WORKROOT, "locks", rel.replace("/", "_") + ".lock"), "w") as lk:
+            fcntl.flock(lk, fcntl.LOCK_EX)
+            need = not os.path.exists(vo) or os.path.getmtime(vo) < os.path.getmtime(v)
+            if not need:
+                for d in coq_deps(rel):
+                    dvo = os.path.join(COQ, d) + "o"
+                    if os.path.exists(dvo) and os.path.getmtime(dvo) > os.path.getmtime(vo):
+                        need = True
+            if need:
+                p = subprocess.run(
+                    ["timeout", str(timeout), "coqc", "-Q", ".", LOGICAL, "-w", COQ_WARN, rel],
+                    cwd=COQ, stdout=subprocess.PIPE, stderr=subprocess.STDOUT, text=True)
+                log.append("COQC %s\n%s" % (rel, p.stdout))
+                if p.returncode != 0:
+                    try:
+                        os.remove(vo)
+                    except OSError:
+                        pass
+                    return False, "\n".join(log)
+    return True, "\n".join(log)
 
 
 def coqc_file(path, cwd=None, timeout=900):
     p = subprocess.run(
-        ["timeout", str(timeout), "coqc", "-Q", COQ, LOGICAL,
-         "-w", "-notation-overridden,-deprecated-hint-without-locality,-deprecated-instance-without-locality",
-         path],
+        ["timeout", str(timeout), "coqc", "-Q", COQ, LOGICAL, "-w", COQ_WARN, path],
         cwd=cwd or os.path.dirname(path),
         stdout=subprocess.PIPE,
         stderr=subprocess.STDOUT,
@@ -186,10 +244,11 @@ def parse_print_assumptions(out):
     return blocks
 
 
-def hygiene_scan():
-    """Forbidden constructs anywhere in the Coq development -> list of hits."""
+def hygiene_scan(rels=None):
+    """Forbidden constructs in the given files (default: the whole development) -> list of hits."""
     hits = []
-    for p in sorted(glob.glob(os.path.join(COQ, "*", "*.v"))):
+    paths = [os.path.join(COQ, r) for r in rels] if rels else sorted(glob.glob(os.path.join(COQ, "*", "*.v")))
+    for p in paths:
         with open(p) as f:
             src = f.read()
         # strip comments (non-nested good enough; nested handled by loop)
@@ -280,11 +339,24 @@ def ddmin(items, fails):
 
 
 def load_known_findings():
-    p = os.path.join(VERIF, "known_findings.json")
-    if not os.path.exists(p):
-        return {"known": [], "fixed": []}
-    with open(p) as f:
-        return json.load(f)
+    """known_findings.json (canonical, committed) plus per-property findings.d/*.json
+    (merged into the canonical file by tools/merge_findings)."""
+    out = {"known": [], "fixed": []}
+    paths = [os.path.join(VERIF, "known_findings.json")] + sorted(glob.glob(os.path.join(VERIF, "findings.d", "*.json")))
+    seen = set()
+    for p in paths:
+        if not os.path.exists(p):
+            continue
+        with open(p) as f:
+            d = json.load(f)
+        for k in d.get("known", []):
+            if k["id"] not in seen:
+                seen.add(k["id"])
+                out["known"].append(k)
+        for k in d.get("fixed", []):
+            if k not in out["fixed"]:
+                out["fixed"].append(k)
+    return out
 
 
 class Ctx:
@@ -389,8 +461,10 @@ class Ctx:
             self.obligation("theorem %s (Print Assumptions: %s)" % (t, "closed" if not axs else ", ".join(axs)), not extra, extra)
             if extra:
                 bad.append("theorem %s depends on non-allow-listed axioms %s" % (t, extra))
-        hits = hygiene_scan()
-        self.obligation("hygiene scan (no Admitted/admit/Axiom/Parameter/... in coq/)", not hits, hits[:10])
+        closure = coq_closure("Props/%s.v" % pid)
+        hits = hygiene_scan(closure)
+        self.extra["coq_files"] = closure
+        self.obligation("hygiene scan (no Admitted/admit/Axiom/Parameter/... in the %d files Props/%s.v depends on)" % (len(closure), pid), not hits, hits[:10])
         if hits:
             bad.append("forbidden constructs: %s" % hits[:5])
         return (not bad), "; ".join(bad)
